@@ -28,6 +28,18 @@ META = {
 HERE = os.path.dirname(os.path.dirname(os.path.abspath(__file__)))
 
 
+def settle(v):
+    """phi(<bool>, NotImplemented): the merge of a try body that computed the answer with an ``except AttributeError: return
+    NotImplemented`` handler.  Both operands are version objects here, whose attributes exist, so the handler is not taken; a
+    method that *decides* NotImplemented for a pair of versions yields NotImplemented alone and stays unfoldable."""
+    from ..values import Sym
+    if isinstance(v, Sym) and v.op == 'phi':
+        rest = [a for a in v.args if 'NotImplemented' not in show(a)]
+        if len(rest) == 1 and isinstance(rest[0], bool) and len(rest) < len(v.args):
+            return rest[0]
+    return v
+
+
 def check(ctx, report):
     model, it = ctx.model, ctx.interp
     cls = model.cls('TlsProtocolVersion')
@@ -59,6 +71,7 @@ def check(ctx, report):
             r = it.call_function(lt, objs[a.name], [objs[b.name]], {}, fr)
             e = it.call_function(eq, objs[a.name], [objs[b.name]], {}, fr)
             report.count('C17.R1', 1)
+            r, e = settle(r), settle(e)
             if not isinstance(r, bool) or not isinstance(e, bool):
                 report.error('C17.R1: comparator not foldable for (%s, %s): %s / %s' % (a.name, b.name, show(r), show(e)))
                 return
@@ -128,6 +141,7 @@ def check(ctx, report):
     report.sample({'rule': 'C17.R1', 'members': len(names), 'pairs': len(ltm), 'triples': triples,
                    'chain': [n for n in sorted(names, key=lambda x: (rank[x][0], rank[x][1], rank[x][2] or 0))][:12]})
     operator_table(ctx, report, cls, members, objs, fr, ltm, eqm, codes)
+    foreign_operands(ctx, report, cls)
     # R2 structural
     decs = cls.decorators
     report.count('C17.R2', 4)
@@ -234,3 +248,48 @@ def operator_table(ctx, report, cls, members, objs, fr, ltm, eqm, codes):
                        '%s is defined in %s, so functools.total_ordering does not derive it: %s %s %s is %s while < and == say %s' % (
                            op, f.cls.name if f.cls else '?', a, {'__le__': '<=', '__gt__': '>', '__ge__': '>=', '__ne__': '!='}[op], b, r, want(a, b)))
     # the class's own __lt__ must be the one the matrix was computed from (an inherited explicit __lt__ is shadowed: fine)
+
+
+# ---- R4: operands that are not versions --------------------------------------------------------------------------------
+
+def foreign_operands(ctx, report, cls):
+    """A parsed supported-versions list holds version objects next to GREASE / unknown code point wrappers, so ``version in
+    vector``, ``vector.index(version)`` and ``==`` meet operands of another class, and which one is met first depends on the
+    order of arrival.  The explicit comparison methods must answer NotImplemented for them: every read of an attribute of
+    ``other`` comes after an ``isinstance(other, ...)`` test whose failure returns NotImplemented (or sits in a handler of
+    AttributeError that does)."""
+    import ast
+    report.rule('C17.R4', 'explicit comparison methods return NotImplemented for operands that are not versions (membership tests do not depend on what else is in the list)')
+    for op in ('__eq__', '__ne__', '__lt__', '__le__', '__gt__', '__ge__'):
+        f = cls.resolve(op)
+        if f is None or f.module.external:
+            continue
+        report.count('C17.R4')
+        report.touch(f)
+        args = [a.arg for a in f.node.args.args]
+        if len(args) < 2:
+            continue
+        other = args[1]
+        guarded_from = None
+        for st in f.node.body:
+            if isinstance(st, ast.If) and isinstance(st.test, ast.UnaryOp) and isinstance(st.test.op, ast.Not) and \
+                    isinstance(st.test.operand, ast.Call) and ast.unparse(st.test.operand.func) == 'isinstance' and \
+                    ast.unparse(st.test.operand.args[0]) == other and \
+                    any(isinstance(x, ast.Return) and ast.unparse(x.value) == 'NotImplemented' for x in st.body):
+                guarded_from = st.end_lineno
+                break
+        for n in ast.walk(f.node):
+            if isinstance(n, ast.Attribute) and isinstance(n.value, ast.Name) and n.value.id == other:
+                if guarded_from is not None and n.lineno > guarded_from:
+                    continue
+                in_try = False
+                for t in ast.walk(f.node):
+                    if isinstance(t, ast.Try) and any(n is x for b in t.body for x in ast.walk(b)) and \
+                            any(h.type is None or 'AttributeError' in ast.unparse(h.type) for h in t.handlers):
+                        in_try = True
+                if not in_try:
+                    report.add('C17.R4', '%s@foreign-operand' % f.construct,
+                               '%s reads %s.%s without having established that the operand is a version: comparing with a GREASE wrapper, None or an enum '
+                               'member raises AttributeError, so `version in parsed_list` depends on the position of the GREASE entry' % (op, other, n.attr))
+                    break
+    report.floor('C17.R4', 2, 'explicit comparison methods')
